@@ -374,6 +374,16 @@ def finish_check(prop, tier, master, agg, wall, broken, quiet, enum_complete,
     if broken or agg['harness_errors']:
         exit_code = 2 if exit_code == 0 else exit_code
         lines.append('HARNESS-ERROR property=%s %s' % (prop.id, broken or ''))
+        try:
+            hp = os.path.join(REPLAY_DIR, 'HARNESS-%s-%s-%s.json'
+                              % (prop.id, tier, master))
+            with open(hp, 'w') as f:
+                json.dump({'property': prop.id, 'tier': tier,
+                           'master_seed': master, 'broken': str(broken),
+                           'errors': agg['harness_errors'][:10]}, f, indent=1)
+            lines.append('  details (episode index, traceback): %s' % hp)
+        except Exception:
+            pass
         for he in agg['harness_errors'][:3]:
             lines.append(he['tb'])
     ev = build_evidence(prop, tier, master, agg, wall, reported, known_hits,
